@@ -161,6 +161,17 @@ let () =
             (match (if which = "rows" then Model.removed_rows d mk else Model.removed_cols d mk) with
              | None -> "dropped"
              | Some o -> Printf.sprintf "kept drows=%s, dcols=%s," (str_ds o.Model.d_rows) (str_ds o.Model.d_cols))
+          | "added", [which; r; c] ->
+            (* SPxBasisBase::addedRows / addedCols: descriptor before; the LP of this block is the LP after the addition *)
+            let d = { Model.d_rows = dsl r; Model.d_cols = dsl c } in
+            let o = if which = "rows" then Model.added_rows p d else Model.added_cols p d in
+            Printf.sprintf "kept drows=%s, dcols=%s," (str_ds o.Model.d_rows) (str_ds o.Model.d_cols)
+          | "removed1", [which; r; c; idx] ->
+            let d = { Model.d_rows = dsl r; Model.d_cols = dsl c } in
+            let k = nat_of_int (int_of_string idx) in
+            (match (if which = "rows" then Model.removed_row d k else Model.removed_col d k) with
+             | None -> "dropped"
+             | Some o -> Printf.sprintf "kept drows=%s, dcols=%s," (str_ds o.Model.d_rows) (str_ds o.Model.d_cols))
           | "descvalid", [r; c] ->
             let d = { Model.d_rows = dsl r; Model.d_cols = dsl c } in
             Printf.sprintf "valid=%s freeok=%s" (b (Model.isDescValid p d)) (b (Model.free_ok p d))
